@@ -26,6 +26,8 @@ pub struct Tap {
     pub last_display: Option<Vec<String>>,
     /// events-only sessions: record the calls, do not run a screen
     pub events_only: bool,
+    /// clear the dirty set before every call (what an embedder repainting after each call does)
+    pub autoclear: bool,
 }
 
 pub fn panic_msg(e: Box<dyn std::any::Any + Send>) -> String {
@@ -52,6 +54,7 @@ impl Tap {
             ncalls: 0,
             last_display: None,
             events_only: false,
+            autoclear: false,
         }
     }
 
@@ -165,6 +168,9 @@ impl Tap {
         if let Call::Draw(t) = &c {
             let t = t.clone();
             self.emit_unicode_facts(&t);
+        }
+        if self.autoclear {
+            self.screen.dirty.clear();
         }
         self.emit_state();
         self.out.push(format!("C {}", c.line()));
